@@ -394,3 +394,247 @@ func genCall(t *rapid.T) callCase {
 	}
 	return c
 }
+
+// ---- histories ------------------------------------------------------------------------------------
+
+var goStringPool = []string{"", "a", "bee", "héllo", "12", "x y"}
+
+// genGoValue draws contents for Go type ty (small, exactly representable).
+func genGoValue(t *rapid.T, ty reflect.Type, depth int) m16.GV {
+	switch k := ty.Kind(); {
+	case k == reflect.Bool:
+		return m16.Bool(rapid.Bool().Draw(t, "gbool"))
+	case m16.IsInt(k):
+		return m16.NumI(int64(rapid.IntRange(-100, 100).Draw(t, "gint")))
+	case m16.IsUint(k):
+		return m16.NumI(int64(rapid.IntRange(0, 200).Draw(t, "guint")))
+	case m16.IsFloat(k):
+		return m16.NumF(float64(rapid.IntRange(-40, 40).Draw(t, "ghalf")) / 2)
+	case k == reflect.String:
+		return m16.Str(rapid.SampledFrom(goStringPool).Draw(t, "gstr"))
+	case k == reflect.Interface:
+		switch rapid.IntRange(0, 4).Draw(t, "gany") {
+		case 0:
+			return m16.Nil()
+		case 1:
+			return m16.NumF(float64(rapid.IntRange(-40, 40).Draw(t, "ghalf")) / 2)
+		case 2:
+			return m16.Str(rapid.SampledFrom(goStringPool).Draw(t, "gstr"))
+		case 3:
+			return m16.Bool(rapid.Bool().Draw(t, "gbool"))
+		}
+		return m16.List(m16.NumF(1), m16.Str("in"))
+	case k == reflect.Slice:
+		n := rapid.IntRange(0, 4).Draw(t, "glen")
+		g := m16.GV{K: "list"}
+		for i := 0; i < n; i++ {
+			g.Elems = append(g.Elems, genGoValue(t, ty.Elem(), depth-1))
+		}
+		return g
+	case k == reflect.Array:
+		g := m16.GV{K: "list"}
+		for i := 0; i < ty.Len(); i++ {
+			g.Elems = append(g.Elems, genGoValue(t, ty.Elem(), depth-1))
+		}
+		return g
+	case k == reflect.Map:
+		n := rapid.IntRange(0, 3).Draw(t, "gmlen")
+		var keys []string
+		var vals []m16.GV
+		seen := map[string]bool{}
+		for i := 0; i < n; i++ {
+			var key string
+			if ty.Key().Kind() == reflect.String {
+				key = rapid.SampledFrom([]string{"a", "b", "c", "k", "x y", "", "0", "7"}).Draw(t, "gkey")
+			} else if m16.IsUint(ty.Key().Kind()) {
+				key = rapid.SampledFrom([]string{"0", "1", "7", "100"}).Draw(t, "gkey")
+			} else {
+				key = rapid.SampledFrom([]string{"0", "1", "-1", "7", "100"}).Draw(t, "gkey")
+			}
+			if seen[key] {
+				continue
+			}
+			seen[key] = true
+			keys = append(keys, key)
+			vals = append(vals, genGoValue(t, ty.Elem(), depth-1))
+		}
+		return m16.MapOf(keys, vals)
+	case k == reflect.Ptr:
+		if rapid.Bool().Draw(t, "gnil") {
+			return m16.Nil()
+		}
+		return m16.Ptr(genGoValue(t, ty.Elem(), depth-1))
+	case k == reflect.Struct:
+		g := m16.Zero(ty)
+		for i := 0; i < ty.NumField(); i++ {
+			f := ty.Field(i)
+			switch {
+			case f.Name == "hid":
+				g.Elems[i] = m16.NumI(m16.HidSentinel)
+			case f.PkgPath != "":
+			default:
+				g.Elems[i] = genGoValue(t, f.Type, depth-1)
+			}
+		}
+		return g
+	}
+	panic("genGoValue: " + ty.String())
+}
+
+var histContainers = []contSpec{
+	{Kind: "pstruct", T: "S"}, {Kind: "pstruct", T: "S"}, {Kind: "pstruct", T: "S"}, {Kind: "vstruct", T: "S"},
+	{Kind: "map", T: "map[string]int"}, {Kind: "map", T: "map[string]int8"}, {Kind: "map", T: "map[string]uint16"}, {Kind: "map", T: "map[string]float32"},
+	{Kind: "map", T: "map[string]float64"}, {Kind: "map", T: "map[string]string"}, {Kind: "map", T: "map[string]bool"}, {Kind: "map", T: "map[string]any"},
+	{Kind: "map", T: "map[int]string"}, {Kind: "map", T: "map[int8]string"}, {Kind: "map", T: "map[uint16]int"}, {Kind: "map", T: "StrIntM"},
+	{Kind: "slice", T: "[]int"}, {Kind: "slice", T: "[]int8"}, {Kind: "slice", T: "[]uint16"}, {Kind: "slice", T: "[]int64"}, {Kind: "slice", T: "[]float32"},
+	{Kind: "slice", T: "[]float64"}, {Kind: "slice", T: "[]string"}, {Kind: "slice", T: "[]bool"}, {Kind: "slice", T: "[]any"}, {Kind: "slice", T: "IntSl"},
+	{Kind: "parray", T: "*[3]int"}, {Kind: "parray", T: "*[4]int"}, {Kind: "parray", T: "*[3]int8"}, {Kind: "parray", T: "*[3]string"}, {Kind: "parray", T: "*[3]float32"},
+	{Kind: "varray", T: "[3]int"},
+}
+
+var mapKeyPoolString = []string{"a", "b", "c", "k", "zzz", "x y", "", "0", "7", "length", "A"}
+var mapKeyPoolInt = []string{"0", "1", "-1", "7", "100", "300", "128", "-129", "65536", "abc", "1.5", "1e3", "0x10", "010", "1_0", "+5", " 5", "", "9223372036854775808"}
+var listKeyPool = []string{"0", "1", "2", "3", "4", "5", "9", "foo", "zzz", "-1", "1.5", "4294967295"}
+
+func genStepVal(t *rapid.T, ty reflect.Type) *m16.JV {
+	v := genFor(t, ty, 1)
+	return &v
+}
+
+func genPrimVal(t *rapid.T) *m16.JV {
+	v := genPrimitive(t)
+	return &v
+}
+
+func genHist(t *rapid.T) histCase {
+	c := rapid.SampledFrom(histContainers).Draw(t, "container")
+	ty := m16.TypeOf(c.T)
+	base := ty
+	if base.Kind() == reflect.Ptr {
+		base = base.Elem()
+	}
+	c.Init = genGoValue(t, base, 2)
+	n := rapid.IntRange(1, 12).Draw(t, "nsteps")
+	hc := histCase{Cont: c}
+	pick := func(label string, weights map[string]int) string {
+		var names []string
+		for k := range weights {
+			names = append(names, k)
+		}
+		sortStrings(names)
+		total := 0
+		for _, k := range names {
+			total += weights[k]
+		}
+		x := rapid.IntRange(0, total-1).Draw(t, label)
+		for _, k := range names {
+			if x < weights[k] {
+				return k
+			}
+			x -= weights[k]
+		}
+		return names[0]
+	}
+	for i := 0; i < n; i++ {
+		var s step
+		switch c.Kind {
+		case "pstruct", "vstruct":
+			w := map[string]int{"set": 40, "get": 4, "del": 8, "call": 16, "gomut": 32}
+			if c.Kind == "vstruct" {
+				w["gomut"] = 0
+			}
+			s.Op = pick("sop", w)
+			switch s.Op {
+			case "set":
+				s.Key = rapid.SampledFrom(append(structNames(base), "hid", "zzz", "Skip")).Draw(t, "skey")
+				if idx := m16.ResolveField(base, s.Key); idx != nil {
+					s.Val = genStepVal(t, m16.FieldType(base, idx))
+				} else {
+					s.Val = genPrimVal(t)
+				}
+			case "get", "del":
+				s.Key = rapid.SampledFrom(append(structNames(base), "hid", "zzz", "Skip")).Draw(t, "skey")
+			case "call":
+				s.Method = rapid.SampledFrom([]string{"Add", "Add", "Get", "Pair"}).Draw(t, "method")
+				na := 0
+				if s.Method == "Add" {
+					na = 1
+				}
+				if rapid.IntRange(0, 7).Draw(t, "marity") == 0 {
+					na = rapid.IntRange(0, 2).Draw(t, "margs")
+				}
+				for j := 0; j < na; j++ {
+					s.Args = append(s.Args, genFor(t, reflect.TypeOf(0), 0))
+				}
+			case "gomut":
+				names := m16.ExportedFields(base)
+				s.Key = rapid.SampledFrom(names).Draw(t, "gfield")
+				f, _ := base.FieldByName(s.Key)
+				g := genGoValue(t, f.Type, 1)
+				s.Go = &g
+			}
+		case "map":
+			keys := mapKeyPoolString
+			if ty.Key().Kind() != reflect.String {
+				keys = mapKeyPoolInt
+			}
+			s.Op = pick("mop", map[string]int{"set": 35, "define": 5, "del": 15, "get": 8, "call": 5, "gomut": 22, "godel": 10})
+			switch s.Op {
+			case "set", "define":
+				s.Key = rapid.SampledFrom(keys).Draw(t, "mkey")
+				s.Val = genStepVal(t, ty.Elem())
+			case "del", "get":
+				s.Key = rapid.SampledFrom(keys).Draw(t, "mkey")
+			case "call":
+				s.Method = "Total"
+			case "gomut", "godel":
+				if ty.Key().Kind() == reflect.String {
+					s.Key = rapid.SampledFrom([]string{"a", "b", "c", "k", "x y", "", "0", "7", "zzz"}).Draw(t, "gkey")
+				} else if m16.IsUint(ty.Key().Kind()) {
+					s.Key = rapid.SampledFrom([]string{"0", "1", "7", "100"}).Draw(t, "gkey")
+				} else {
+					s.Key = rapid.SampledFrom([]string{"0", "1", "-1", "7", "100"}).Draw(t, "gkey")
+				}
+				if s.Op == "gomut" {
+					g := genGoValue(t, ty.Elem(), 1)
+					s.Go = &g
+				}
+			}
+		default: // lists
+			et := base.Elem()
+			s.Op = pick("lop", map[string]int{"set": 30, "define": 3, "push": 12, "del": 10, "len": 8, "pop": 3, "get": 4, "call": 4, "gomut": 26})
+			switch s.Op {
+			case "set", "define":
+				s.Key = rapid.SampledFrom(listKeyPool).Draw(t, "lkey")
+				if _, isIdx := arrayIndex(s.Key); isIdx {
+					s.Val = genStepVal(t, et)
+				} else {
+					s.Val = genPrimVal(t)
+				}
+			case "push":
+				s.Val = genStepVal(t, et)
+			case "del", "get":
+				s.Key = rapid.SampledFrom(append(listKeyPool, "length")).Draw(t, "lkey")
+			case "len":
+				v := m16.JNum(float64(rapid.IntRange(0, 8).Draw(t, "newlen")), "lit")
+				s.Val = &v
+			case "call":
+				s.Method = "Sum"
+			case "gomut":
+				s.Key = rapid.SampledFrom([]string{"0", "1", "2", "3"}).Draw(t, "gidx")
+				g := genGoValue(t, et, 1)
+				s.Go = &g
+			}
+		}
+		hc.Steps = append(hc.Steps, s)
+	}
+	return hc
+}
+
+func sortStrings(s []string) {
+	for i := 1; i < len(s); i++ {
+		for j := i; j > 0 && s[j] < s[j-1]; j-- {
+			s[j], s[j-1] = s[j-1], s[j]
+		}
+	}
+}
